@@ -979,6 +979,21 @@ pub fn gen_c19(rng: &mut Rng, quick: bool, st: &mut Stats) -> Vec<String> {
     }
     // metadata shapes
     let shapes: Vec<&[u8]> = vec![b"null", b"true", b"false", b"0", b"-1.5e3", b"\"x\"", b"[]", b"[{}]", b"[1,2]", b"\"{}\"", b" 7 ", b"{}", b"{\"a\":[1]}"];
+    // long non-object values with multi-byte characters at every offset (a refusal must not slice their text blindly)
+    let mut long_shapes: Vec<Vec<u8>> = Vec::new();
+    for pad in [0usize, 1, 2, 3, 17, 44, 45, 46, 47, 60, 125, 126, 127, 254, 255, 1021] {
+        let mut t = String::from("\"");
+        t.push_str(&"a".repeat(pad));
+        t.push_str(&"\u{e9}\u{65e5}\u{1f600}".repeat(40));
+        t.push('"');
+        long_shapes.push(t.clone().into_bytes());
+        long_shapes.push(format!("[{t},{t}]").into_bytes());
+    }
+    for (k, s) in long_shapes.iter().enumerate() {
+        let comp = 1 + (k % 4) as u8;
+        c.push(format!("chk_meta_shape {} {comp:x} {}", if k % 2 == 0 { "sync" } else { "async" }, hex_bytes(s)));
+        st.bump("metadata_long_non_objects_with_multibyte_text");
+    }
     for (k, s) in shapes.iter().enumerate() {
         for comp in 1..=4u8 {
             let mode = if (k + comp as usize) % 2 == 0 { "sync" } else { "async" };
